@@ -1,9 +1,11 @@
 package checks
 
 import (
+	"bytes"
 	"fmt"
 	"math"
 	"reflect"
+	"sort"
 
 	"verif/gen"
 	"verif/harness"
@@ -27,7 +29,7 @@ func init() {
 	})
 }
 
-var c10Zoo = []interface{}{&zoo.Defs{}, &zoo.Defs2{}, &zoo.NoDefs{}, &zoo.Defs{}, &zoo.Defs2{}, &zoo.Defs3{}, &zoo.Defs3{}, &zoo.DefsNC{}, &zoo.DefsNCHolder{}}
+var c10Zoo = []interface{}{&zoo.Defs{}, &zoo.Defs2{}, &zoo.NoDefs{}, &zoo.Defs{}, &zoo.Defs2{}, &zoo.Defs3{}, &zoo.Defs3{}, &zoo.DefsNC{}, &zoo.DefsNCHolder{}, &zoo.DefsNeg{}, &zoo.DefsNeg{}}
 
 // driveDefaults rewrites optional scalar/string/binary fields of every struct
 // reachable from v towards the interesting cells: equal to default, zero, -0.0,
@@ -93,18 +95,22 @@ func driveValue(r *gen.Rand, t *schema.Type, v reflect.Value, depth int) {
 		}
 	case schema.Map:
 		if t.Elem.K == schema.StructK && t.Elem.Ptr {
-			it := v.MapRange()
-			for it.Next() {
-				driveValue(r, t.Elem, it.Value(), depth+1)
+			for _, k := range sortedKeys(t, v) { // deterministic order: the PRNG stream must not depend on map iteration
+				if mv := v.MapIndex(k); mv.IsValid() { // (a NaN key cannot be looked up)
+					driveValue(r, t.Elem, mv, depth+1)
+				}
 			}
 		} else if t.Elem.K == schema.StructK {
 			// by-value map values are not addressable: rewrite through a copy
-			it := v.MapRange()
-			for it.Next() {
+			for _, k := range sortedKeys(t, v) {
+				mv := v.MapIndex(k)
+				if !mv.IsValid() {
+					continue
+				}
 				cp := reflect.New(t.Elem.S.Go).Elem()
-				cp.Set(it.Value())
+				cp.Set(mv)
 				driveDefaults(r, t.Elem.S, cp, depth+1)
-				v.SetMapIndex(it.Key(), cp)
+				v.SetMapIndex(k, cp)
 			}
 		}
 	}
@@ -241,4 +247,21 @@ func clipVal(v reflect.Value) string {
 		s = s[:80] + "…"
 	}
 	return s
+}
+
+// sortedKeys returns the keys of map v (of schema type t) ordered by their encoding.
+func sortedKeys(t *schema.Type, v reflect.Value) []reflect.Value {
+	keys := v.MapKeys()
+	enc := make(map[int][]byte, len(keys))
+	idx := make([]int, len(keys))
+	for i, k := range keys {
+		enc[i] = ref.ValueBytes(t.Key, k)
+		idx[i] = i
+	}
+	sort.SliceStable(idx, func(a, b int) bool { return bytes.Compare(enc[idx[a]], enc[idx[b]]) < 0 })
+	out := make([]reflect.Value, len(keys))
+	for i, j := range idx {
+		out[i] = keys[j]
+	}
+	return out
 }
